@@ -973,6 +973,10 @@ class Ref:
                 d = _det_cofactor(a, nn)
                 if ((abs(d) < 1e-6 * had) & (had > 1e3)).any():
                     raise NonFinite('determinant of a nearly singular matrix with large entries')
+                if self.eps:
+                    # a determinant is only known up to an absolute error proportional to the product of the row norms: the perturbed run moves it
+                    # by that much, so that anything discontinuous downstream (comparison with the exact 0 of a singular matrix) is recognised as kink-sensitive
+                    d = d + self.eps * had
                 return d
             return _det_cofactor(a, nn)
         if op == 'inv':
